@@ -12,7 +12,7 @@ TRACE = ("Trace_StopCond", "Trace_StopCond.cfg")
 def model_check(ctx):
     ctx.mc("StopCond", "MC_StopCond_q.cfg" if ctx.quick else "MC_StopCond_t.cfg", label="all kinds, T, min<=max, all boolean convergence traces")
     ctx.mc_negative("StopCond", "MC_StopCond_neg.cfg")
-    ctx.assumptions += ["min_steps <= max_steps in every enumerated configuration",
+    ctx.assumptions += ["min_steps > max_steps is enumerated too: the hard cut-off at max_steps wins",
                         "run-level convergence flags are measured on a plain run with the library's compute_energy / a numpy re-implementation of the documented spectral criterion"]
 
 
@@ -27,7 +27,7 @@ def gen_cases(ctx):
     for cond in ("energy", "detector"):
         lo = 0 if cond == "energy" else 4
         for mn in range(lo, T + 2):
-            for mx in range(mn, T + 3):
+            for mx in range(max(0, mn - 3), T + 3):   # includes min_steps > max_steps (the hard cut-off wins)
                 if ctx.quick and rng.random() > 0.6:
                     continue
                 for t in range(0, T + 2):
@@ -38,13 +38,13 @@ def gen_cases(ctx):
         n += 1
         yield {"id": f"call{n}", "kind": "call", "cond": "time", "T": T, "mn": 0, "mx": T, "t": t, "conv": False}
     runs = [("energy", 12, 0, 12, 0.5), ("energy", 12, 3, 12, 0.9), ("energy", 12, 8, 12, 0.9), ("energy", 12, 0, 5, 1e-9), ("energy", 12, 2, 9, 0.2), ("energy", 12, 0, 20, 1e-9), ("energy", 12, 1, 12, 0.6), ("energy", 12, 1, 12, 0.35), ("energy", 12, 1, 6, 0.3), ("energy", 12, 4, 12, 0.45),
-            ("detector", 14, 4, 14, 0.0), ("detector", 14, 6, 9, 0.0), ("detector", 14, 4, 7, -1.0), ("detector", 14, 5, 14, -1.0), ("time", 9, 0, 9, 0.0)]
+            ("energy", 12, 6, 3, 1e-9), ("energy", 12, 9, 5, 0.3), ("detector", 14, 8, 6, -1.0), ("detector", 14, 4, 14, 0.0), ("detector", 14, 6, 9, 0.0), ("detector", 14, 4, 7, -1.0), ("detector", 14, 5, 14, -1.0), ("time", 9, 0, 9, 0.0)]
     if not ctx.quick:
         for _ in range(20):
             c = rng.choice(["energy", "detector"])
             T2 = rng.randint(10, 16)
             mn = rng.randint(4 if c == "detector" else 0, T2 - 2)
-            mx = rng.randint(mn, T2 + 3)
+            mx = rng.randint(max(1, mn - 4), T2 + 3)
             runs.append((c, T2, mn, mx, rng.choice([0.05, 0.3, 0.8, 1e-9]) if c == "energy" else rng.choice([0.0, -1.0])))
     ctx.exhaustive = False
     for i, (cond, T2, mn, mx, frac) in enumerate(runs):
